@@ -96,6 +96,8 @@ func c13RunHTTP(rep *vh.Report, srv *Server, a *vref.VAsset, asset string, N int
 	if quick {
 		windows = [][2]uint64{{0, 200}, {wrapS - 70, wrapS + 70}}
 	}
+	// a stream that has been running since 1970 (start_0 and a present-day instant): large media times
+	windows = append(windows, [2]uint64{1_700_000_040 - 60, 1_700_000_040 + 80})
 	adDur := uint64(10)
 	if N == 1 {
 		adDur = 20
